@@ -1004,12 +1004,34 @@ fn static_variants(r: &mut Rng) -> (&'static str, String) {
         4 => ("constant non-boolean where", format!("* | json | where {}", r.pick(&["1", "\"x\"", "null", "2h", "007", "'s'"]))),
         5 => {
             let f = *r.pick(&["nosuch", "lenght", "Length", "concatt", "is_null", "toupper", "parsedate"]);
-            let q = match r.below(5) {
-                0 => format!("* | json | {}({}) as y", f, col),
-                1 => format!("* | json | where {}({}) == 1", f, col),
-                2 => format!("* | json | count by {}({})", f, col),
-                3 => format!("* | json | sum({}({}))", f, col),
-                _ => format!("* | json | sort by abs({}({}))", f, col),
+            // the call sits anywhere inside a larger expression — also where evaluation would never
+            // reach it (the untaken branch of a constant `if`, behind a constant `and`/`or`): a query
+            // is checked as written, not as it would run
+            let mut bad = format!("{}({})", f, col);
+            for _ in 0..r.below(3) {
+                bad = match r.below(12) {
+                    0 => format!("if(true, {}, {})", col, bad),
+                    1 => format!("if(false, {}, {})", bad, col),
+                    2 => format!("if({} > 1, {}, {})", col, bad, col),
+                    3 => format!("if(1 == 1, 0, {})", bad),
+                    4 => format!("(false and {})", bad),
+                    5 => format!("(true or {})", bad),
+                    6 => format!("(0 * {})", bad),
+                    7 => format!("concat(\"a\", {})", bad),
+                    8 => format!("!{}", bad),
+                    9 => format!("if(isNull({}), 1, {})", col, bad),
+                    10 => format!("length(if(true, \"s\", {}))", bad),
+                    _ => format!("({} + 1)", bad),
+                };
+            }
+            let q = match r.below(7) {
+                0 => format!("* | json | {} as y", bad),
+                1 => format!("* | json | where {} == 1", bad),
+                2 => format!("* | json | count by {}", bad),
+                3 => format!("* | json | sum({})", bad),
+                4 => format!("* | json | count({} == 1)", bad),
+                5 => format!("* | json | count by k | where {} == 1", bad),
+                _ => format!("* | json | sort by abs({})", bad),
             };
             ("unknown function", q)
         }
